@@ -183,6 +183,17 @@ func (w *tworld) settle() {
 		b = b[len(h2wire.Preface):]
 		w.prefaceSeen = true
 	}
+	// what the application handed to the transport is noted before the frames that may carry it
+	for _, i := range w.ridx() {
+		r := w.reqs[i]
+		r.mu.Lock()
+		given := r.bodyGiven
+		r.mu.Unlock()
+		if d := given - r.repGiven; d > 0 {
+			w.led.AppWrite(r.id, d)
+			r.repGiven = given
+		}
+	}
 	for _, f := range w.tp.Feed(b) {
 		w.led.SubjFrame(f)
 		if w.keepTrace {
@@ -199,15 +210,15 @@ func (w *tworld) settle() {
 			w.note("T> %v%s", f, extra)
 		}
 	}
+	if w.sv.PeerGone() && !w.led.ConnClosed {
+		w.led.SubjClosedConn()
+		w.note("T> (connection closed)")
+	}
 	for _, i := range w.ridx() {
 		r := w.reqs[i]
 		r.mu.Lock()
-		rt, given, cl, done, bad, end := r.readTotal, r.bodyGiven, r.closed, r.done, r.readBad, r.readEnd
+		rt, cl, done, bad, end := r.readTotal, r.closed, r.done, r.readBad, r.readEnd
 		r.mu.Unlock()
-		if d := given - r.repGiven; d > 0 {
-			w.led.AppWrite(r.id, d)
-			r.repGiven = given
-		}
 		if d := rt - r.repRead; d > 0 {
 			w.led.AppRead(r.id, d)
 			r.repRead = rt
